@@ -1736,3 +1736,641 @@ Proof.
   - eapply auth_telnet_loop_answers_user; eauto.
   - eapply auth_telnet_loop_answers_pw; eauto.
 Qed.
+
+(* ---------- outcomes of the ssh login ---------- *)
+Lemma ctrace_bind_inv cfg A B (p : prog A) (f : A -> prog B) : forall t r,
+  ctrace cfg (bind p f) t r ->
+  (exists t1 t2 a, t = t1 ++ t2 /\ ctrace cfg p t1 (inl a) /\ ctrace cfg (f a) t2 r)
+  \/ (exists e, ctrace cfg p t (inr e) /\ r = inr e).
+Proof.
+  induction p; simpl; intros t r0 Hc.
+  - left. exists [], t, r. repeat split; auto. constructor.
+  - pinv Hc. right. exists e. split; auto. constructor.
+  - pinv Hc. destruct (IHp _ _ Hc) as [[t1 [t2 [a [E [H1 H2]]]]]|[e [H1 E]]].
+    + left. exists (OWrite b redacted :: t1), t2, a. subst. repeat split; auto. constructor; auto.
+    + right. exists e. split; auto. constructor; auto.
+  - pinv Hc.
+    + destruct (H _ _ _ Hc) as [[t1 [t2 [a [E [H1 H2]]]]]|[e [H1 E]]].
+      * left. exists (ORead c rb :: t1), t2, a. subst. repeat split; auto. constructor; auto.
+      * right. exists e. split; auto. constructor; auto.
+    + destruct (H0 _ _ _ Hc) as [[t1 [t2 [a [E [H1 H2]]]]]|[e' [H1 E]]].
+      * left. exists (OErr c e :: t1), t2, a. subst. repeat split; auto. apply ct_err; auto.
+      * right. exists e'. split; auto. apply ct_err; auto.
+  - pinv Hc. destruct (IHp _ _ Hc) as [[t1 [t2 [a [E [H1 H2]]]]]|[e [H1 E]]].
+    + left. exists (ONote tag data :: t1), t2, a. subst. repeat split; auto. constructor; auto.
+    + right. exists e. split; auto. constructor; auto.
+  - pinv Hc. destruct (IHp _ _ Hc) as [[t1 [t2 [a [E [H1 H2]]]]]|[e [H1 E]]].
+    + left. exists (ORequeue b :: t1), t2, a. subst. repeat split; auto. constructor; auto.
+    + right. exists e. split; auto. constructor; auto.
+Qed.
+
+Fixpoint last_opt (t : list obs) : option obs :=
+  match t with
+  | [] => None
+  | o :: r => match last_opt r with None => Some o | x => x end
+  end.
+
+Lemma last_opt_snoc t o : last_opt (t ++ [o]) = Some o.
+Proof. induction t as [|x t IH]; simpl; auto. rewrite IH. auto. Qed.
+
+Lemma last_opt_some t o : last_opt t = Some o -> exists t0, t = t0 ++ [o].
+Proof.
+  revert o; induction t as [|x t IH]; simpl; intros o H; [discriminate|].
+  destruct (last_opt t) eqn:E.
+  - inversion H; subst. destruct (IH _ eq_refl) as [t0 ->]. exists (x :: t0); auto.
+  - inversion H; subst. destruct t; [exists []; auto|]. simpl in E. destruct (last_opt t); discriminate.
+Qed.
+
+(* classes of the buffers the reads of a trace returned with (accumulated since the last reset) *)
+Fixpoint read_classes (cfg : chan_cfg) (ap : auth_pats) (acc : bytes) (t : list obs) : list ssh_class :=
+  match t with
+  | [] => []
+  | ORead _ rb :: r => ssh_cls cfg ap (acc ++ rb) :: read_classes cfg ap (acc ++ rb) r
+  | _ :: r => read_classes cfg ap [] r
+  end.
+
+Definition ssh_class_dec : forall a b : ssh_class, {a = b} + {a <> b}.
+Proof. decide equality. Defined.
+Definition cnt (k : ssh_class) (l : list ssh_class) : nat := count_occ ssh_class_dec l k.
+
+(* the outcome as a function of the last observation and the buffer accumulated at the end *)
+Definition ssh_verdict (cfg : chan_cfg) (ap : auth_pats) (lo : option obs) (acc : bytes) (r : bytes + err) : Prop :=
+  match lo with
+  | None => r = inr EOperation                       (* the model's iteration bound *)
+  | Some (OErr _ e) => r = inr e
+  | Some (ORead _ _) =>
+      match ssh_cls cfg ap acc with
+      | KErr => r = inr EConnection
+      | KPrompt => r = inl acc
+      | KPass | KPassphrase => r = inr EAuth
+      | KNone => r = inr EOperation                  (* the model's iteration bound *)
+      end
+  | Some (OWrite _ _) => r = inr EOperation          (* the model's iteration bound *)
+  | Some _ => False
+  end.
+
+(* the last observation is a read whose accumulated buffer is a password / passphrase prompt *)
+Definition ends_at_prompt (cfg : chan_cfg) (ap : auth_pats) (b : bytes) (t : list obs) : Prop :=
+  exists c rb, last_opt t = Some (ORead c rb)
+    /\ (ssh_cls cfg ap (tail_reads_from b t) = KPass \/ ssh_cls cfg ap (tail_reads_from b t) = KPassphrase).
+
+Definition one_too_many (cfg : chan_cfg) (ap : auth_pats) (b : bytes) (pc ppc : nat) (t : list obs) : Prop :=
+  (pc + cnt KPass (read_classes cfg ap b t) = S password_seen_max)%nat
+  \/ (ppc + cnt KPassphrase (read_classes cfg ap b t) = S passphrase_seen_max)%nat.
+
+Section SshOutcome.
+  Variables (cfg : chan_cfg) (ap : auth_pats) (pw pp : bytes).
+
+  Lemma ends_at_prompt_skip b o1 t :
+    (forall c rb, o1 <> ORead c rb) -> last_opt t <> None ->
+    (ends_at_prompt cfg ap b (o1 :: t) <-> ends_at_prompt cfg ap [] t).
+  Proof.
+    intros Ho Hl. unfold ends_at_prompt. simpl last_opt.
+    destruct (last_opt t) eqn:E; [|congruence].
+    assert (Et : tail_reads_from b (o1 :: t) = tail_reads_from [] t).
+    { destruct o1; auto. exfalso; eapply Ho; eauto. }
+    rewrite Et. tauto.
+  Qed.
+
+  Lemma auth_ssh_loop_outcome : forall fuel b pc ppc t r,
+    (pc <= password_seen_max)%nat -> (ppc <= passphrase_seen_max)%nat ->
+    ctrace cfg (auth_ssh_loop fuel cfg ap pw pp b pc ppc) t r ->
+    ssh_verdict cfg ap (last_opt t) (tail_reads_from b t) r
+    /\ (one_too_many cfg ap b pc ppc t <-> ends_at_prompt cfg ap b t).
+  Proof.
+    induction fuel as [|f IH]; intros b pc ppc t r Hpc Hppc H.
+    - simpl in H. pinv H. split; [reflexivity|].
+      unfold one_too_many, ends_at_prompt, cnt. simpl. split.
+      + intros [X|X]; lia.
+      + intros [c [rb [X _]]]. discriminate.
+    - apply ctrace_ssh_loop_inv in H. destruct H as [[rb [t' [-> [Hc H]]]]|[e [-> ->]]].
+      2:{ split; [reflexivity|]. unfold one_too_many, ends_at_prompt, cnt. simpl. split.
+          - intros [X|X]; lia.
+          - intros [c [rb [X _]]]. discriminate. }
+      unfold ssh_k in H. destruct (ssh_cls cfg ap (b ++ rb)) eqn:K.
+      + pinv H. split; [simpl; rewrite K; reflexivity|].
+        unfold one_too_many, ends_at_prompt, cnt. simpl. rewrite K. simpl. split.
+        * intros [X|X]; lia.
+        * intros [c [rb' [_ [X|X]]]]; discriminate.
+      + pinv H. split; [simpl; rewrite K; reflexivity|].
+        unfold one_too_many, ends_at_prompt, cnt. simpl. rewrite K. simpl. split.
+        * intros [X|X]; lia.
+        * intros [c [rb' [_ [X|X]]]]; discriminate.
+      + destruct (Nat.ltb password_seen_max (S pc)) eqn:El.
+        * apply Nat.ltb_lt in El. pinv H. split; [simpl; rewrite K; reflexivity|].
+          unfold one_too_many, ends_at_prompt, cnt. simpl. rewrite K. simpl. split.
+          -- intros _. eauto.
+          -- intros _. left. lia.
+        * apply Nat.ltb_ge in El. pinv H. pinv H.
+          match type of H with ctrace _ _ ?tt _ => rename tt into tz end.
+          destruct (IH [] (S pc) ppc _ _ El Hppc H) as [V C].
+          split.
+          -- simpl last_opt. simpl tail_reads_from. destruct (last_opt tz) eqn:E; auto.
+          -- assert (C1 : one_too_many cfg ap b pc ppc
+                            (ORead (CSshAuth b (ssh_pats cfg ap)) rb :: OWrite pw true :: OWrite (c_ret cfg) false :: tz)
+                          <-> one_too_many cfg ap [] (S pc) ppc tz).
+             { unfold one_too_many, cnt. simpl. rewrite K. simpl.
+               split; intros [X|X]; [left|right|left|right]; lia. }
+             rewrite C1, C. unfold ends_at_prompt. simpl last_opt. simpl tail_reads_from.
+             destruct (last_opt tz) eqn:E; [tauto|].
+             split; intros [c [rb' [X _]]]; discriminate.
+      + destruct (Nat.ltb passphrase_seen_max (S ppc)) eqn:El.
+        * apply Nat.ltb_lt in El. pinv H. split; [simpl; rewrite K; reflexivity|].
+          unfold one_too_many, ends_at_prompt, cnt. simpl. rewrite K. simpl. split.
+          -- intros _. eauto.
+          -- intros _. right. lia.
+        * apply Nat.ltb_ge in El. pinv H. pinv H.
+          match type of H with ctrace _ _ ?tt _ => rename tt into tz end.
+          destruct (IH [] pc (S ppc) _ _ Hpc El H) as [V C].
+          split.
+          -- simpl last_opt. simpl tail_reads_from. destruct (last_opt tz) eqn:E; auto.
+          -- assert (C1 : one_too_many cfg ap b pc ppc
+                            (ORead (CSshAuth b (ssh_pats cfg ap)) rb :: OWrite pp true :: OWrite (c_ret cfg) false :: tz)
+                          <-> one_too_many cfg ap [] pc (S ppc) tz).
+             { unfold one_too_many, cnt. simpl. rewrite K. simpl.
+               split; intros [X|X]; [left|right|left|right]; lia. }
+             rewrite C1, C. unfold ends_at_prompt. simpl last_opt. simpl tail_reads_from.
+             destruct (last_opt tz) eqn:E; [tauto|].
+             split; intros [c [rb' [X _]]]; discriminate.
+      + destruct (IH (b ++ rb) pc ppc _ _ Hpc Hppc H) as [V C].
+        split.
+        * simpl last_opt. simpl tail_reads_from. destruct (last_opt t') eqn:E; auto.
+          destruct t'; [|simpl in E; destruct (last_opt t'); discriminate].
+          simpl. rewrite K. exact V.
+        * assert (C1 : one_too_many cfg ap b pc ppc (ORead (CSshAuth b (ssh_pats cfg ap)) rb :: t')
+                       <-> one_too_many cfg ap (b ++ rb) pc ppc t').
+          { unfold one_too_many, cnt. simpl. rewrite K. simpl. tauto. }
+          rewrite C1, C. unfold ends_at_prompt. simpl last_opt. simpl tail_reads_from.
+          destruct (last_opt t') eqn:E; [tauto|].
+          destruct t'; [|simpl in E; destruct (last_opt t'); discriminate].
+          simpl. rewrite K. split.
+          -- intros [c [rb' [X _]]]; discriminate.
+          -- intros [c [rb' [_ [X|X]]]]; discriminate.
+  Qed.
+End SshOutcome.
+
+(* the outcome of a complete ssh login is determined by its last observation; a third password
+   (passphrase) prompt is seen exactly when the trace ends at such a prompt *)
+Theorem auth_outcomes : forall cfg ap pw pp t r,
+  ctrace cfg (auth_ssh cfg ap pw pp) t r ->
+  ssh_verdict cfg ap (last_opt t) (tail_reads_from [] t) r
+  /\ (one_too_many cfg ap [] 0 0 t <-> ends_at_prompt cfg ap [] t).
+Proof.
+  intros cfg ap pw pp t r H. eapply auth_ssh_loop_outcome; eauto; apply Nat.le_0_l.
+Qed.
+
+(* inl b iff the prompt pattern matched the buffer accumulated at the last read; b is that buffer *)
+Corollary auth_outcome_ok : forall cfg ap pw pp t r b,
+  ctrace cfg (auth_ssh cfg ap pw pp) t r ->
+  (r = inl b <-> exists c rb, last_opt t = Some (ORead c rb) /\ b = tail_reads_from [] t
+                              /\ ssh_error b = false /\ rx_match (c_prompt cfg) b = true).
+Proof.
+  intros cfg ap pw pp t r b H. destruct (auth_outcomes _ _ _ _ _ _ H) as [V _].
+  unfold ssh_verdict in V. split.
+  - intros ->. destruct (last_opt t) as [[| |c rb| |]|]; try discriminate; try contradiction.
+    destruct (ssh_cls cfg ap (tail_reads_from [] t)) eqn:K; try discriminate.
+    inversion V; subst. apply ssh_cls_prompt in K. destruct K. exists c, rb. auto.
+  - intros [c [rb [E [-> [H1 H2]]]]]. rewrite E in V.
+    unfold ssh_cls in V. rewrite H1, H2 in V. exact V.
+Qed.
+
+(* inr EAuth iff a third password or passphrase prompt was seen (or the environment handed EAuth
+   to a read, which the interpreter never does) *)
+Corollary auth_outcome_auth : forall cfg ap pw pp t r,
+  ctrace cfg (auth_ssh cfg ap pw pp) t r ->
+  (r = inr EAuth <-> one_too_many cfg ap [] 0 0 t \/ exists c, last_opt t = Some (OErr c EAuth)).
+Proof.
+  intros cfg ap pw pp t r H. destruct (auth_outcomes _ _ _ _ _ _ H) as [V C]. rewrite C.
+  unfold ssh_verdict in V. unfold ends_at_prompt. split.
+  - intros ->. destruct (last_opt t) as [[| |c rb|c e|]|]; try discriminate; try contradiction.
+    + destruct (ssh_cls cfg ap (tail_reads_from [] t)) eqn:K; try discriminate; left; eauto.
+    + inversion V; subst. right; eauto.
+  - intros [[c [rb [E K]]]|[c E]]; rewrite E in V; auto.
+    destruct K as [K|K]; rewrite K in V; auto.
+Qed.
+
+(* inr EConnection iff the last buffer carried an ssh error message (or the connection was lost) *)
+Corollary auth_outcome_connection : forall cfg ap pw pp t r,
+  ctrace cfg (auth_ssh cfg ap pw pp) t r ->
+  (r = inr EConnection <->
+   (exists c rb, last_opt t = Some (ORead c rb) /\ ssh_error (tail_reads_from [] t) = true)
+   \/ exists c, last_opt t = Some (OErr c EConnection)).
+Proof.
+  intros cfg ap pw pp t r H. destruct (auth_outcomes _ _ _ _ _ _ H) as [V _].
+  unfold ssh_verdict in V. split.
+  - intros ->. destruct (last_opt t) as [[| |c rb|c e|]|]; try discriminate; try contradiction.
+    + destruct (ssh_cls cfg ap (tail_reads_from [] t)) eqn:K; try discriminate.
+      apply ssh_cls_err in K. left; eauto.
+    + inversion V; subst. right; eauto.
+  - intros [[c [rb [E K]]]|[c E]]; rewrite E in V; auto.
+    apply (proj2 (ssh_cls_err cfg ap _)) in K. rewrite K in V. auto.
+Qed.
+
+Corollary auth_outcome_timeout : forall cfg ap pw pp t r c,
+  ctrace cfg (auth_ssh cfg ap pw pp) t r -> In (OErr c ETimeout) t -> r = inr ETimeout.
+Proof. intros. eapply timeout_is_timeout; eauto. constructor. Qed.
+
+(* Channel.Open puts exactly the buffer the login returned back on the queue *)
+Lemma requeue_tail cfg (p : prog bytes) t r :
+  ctrace cfg (bind p (fun b => match b with [] => Ret [] | _ => Requeue b (Ret b) end)) t r ->
+  match r with
+  | inl b => (b = [] /\ ctrace cfg p t (inl [])) \/ (b <> [] /\ exists t0, t = t0 ++ [ORequeue b] /\ ctrace cfg p t0 (inl b))
+  | inr e => ctrace cfg p t (inr e)
+  end.
+Proof.
+  intros H. apply ctrace_bind_inv in H. destruct H as [[t1 [t2 [a [E [H1 H2]]]]]|[e [H1 ->]]]; auto.
+  destruct a as [|x a].
+  - pinv H2. rewrite app_nil_r. auto.
+  - pinv H2. pinv H2. right. split; [discriminate|]. eauto.
+Qed.
+
+Theorem channel_open_requeues_ssh : forall cfg ap pw pp t r,
+  ctrace cfg (channel_open cfg ap (AuthSSH pw pp)) t r ->
+  match r with
+  | inl b => (b = [] /\ ctrace cfg (auth_ssh cfg ap pw pp) t (inl []))
+             \/ (b <> [] /\ exists t0, t = t0 ++ [ORequeue b] /\ ctrace cfg (auth_ssh cfg ap pw pp) t0 (inl b))
+  | inr e => ctrace cfg (auth_ssh cfg ap pw pp) t (inr e)
+  end.
+Proof. intros. apply requeue_tail. exact H. Qed.
+
+Theorem channel_open_requeues_telnet : forall cfg ap u pw t r,
+  ctrace cfg (channel_open cfg ap (AuthTelnet u pw)) t r ->
+  match r with
+  | inl b => (b = [] /\ ctrace cfg (auth_telnet cfg ap u pw) t (inl []))
+             \/ (b <> [] /\ exists t0, t = t0 ++ [ORequeue b] /\ ctrace cfg (auth_telnet cfg ap u pw) t0 (inl b))
+  | inr e => ctrace cfg (auth_telnet cfg ap u pw) t (inr e)
+  end.
+Proof. intros. apply requeue_tail. exact H. Qed.
+
+(* ====================================================================== *)
+(* C.  C12 — pacing; the secret only at its prompt                         *)
+(* ====================================================================== *)
+
+Definition prefix_of {A} (l l' : list A) : Prop := exists r, l' = l ++ r.
+
+Lemma prefix_of_nil {A} (l : list A) : prefix_of [] l.
+Proof. exists l; auto. Qed.
+Lemma prefix_of_cons {A} (x : A) l l' : prefix_of l l' -> prefix_of (x :: l) (x :: l').
+Proof. intros [r ->]. exists r; auto. Qed.
+
+(* SendInput: input, echo read, return, prompt read — in this order *)
+Theorem send_input_return_after_echo : forall cfg input o t,
+  o_eager o = false -> input <> [] -> ptrace cfg (send_input cfg input o) t ->
+  (exists rb1 rb2, prefix_of t [OWrite input false; ORead (echo_cond o input) rb1;
+                                OWrite (c_ret cfg) false; ORead (prompt_cond cfg o) rb2])
+  \/ (exists e, t = [OWrite input false; OErr (echo_cond o input) e])
+  \/ (exists rb1 e, t = [OWrite input false; ORead (echo_cond o input) rb1;
+                         OWrite (c_ret cfg) false; OErr (prompt_cond cfg o) e]).
+Proof.
+  intros cfg input o t He Hi H. unfold send_input in H. rewrite He in H.
+  destruct input as [|x input]; [congruence|].
+  assert (Eu : forall (k : bytes -> prog bytes), until_echo o (x :: input) k = Until (echo_cond o (x :: input)) k Fail).
+  { intros k. unfold until_echo. destruct (o_exact o); reflexivity. }
+  rewrite Eu in H. fold (prompt_cond cfg o) in H.
+  pinv H; [left; exists [], []; apply prefix_of_nil|].
+  pinv H; [left; exists [], []; apply prefix_of_cons, prefix_of_nil| |].
+  - pinv H; [left; exists rb, []; do 2 apply prefix_of_cons; apply prefix_of_nil|].
+    pinv H; [left; exists rb, []; do 3 apply prefix_of_cons; apply prefix_of_nil| |].
+    + pinv H. left. exists rb, rb0. do 4 apply prefix_of_cons. apply prefix_of_nil.
+    + pinv H. right; right. eauto.
+  - pinv H. right; left. eauto.
+Qed.
+
+Lemma cons_split {A} (a x : A) l t1 t2 :
+  a :: l = t1 ++ x :: t2 -> (t1 = [] /\ a = x /\ l = t2) \/ (exists t1', t1 = a :: t1' /\ l = t1' ++ x :: t2).
+Proof. destruct t1 as [|y t1]; simpl; intros H; inversion H; subst; eauto. Qed.
+Lemma nil_split {A} (x : A) t1 t2 : [] = t1 ++ x :: t2 -> False.
+Proof. destruct t1; discriminate. Qed.
+Ltac csplit H :=
+  first [ apply nil_split in H; contradiction
+        | apply cons_split in H; destruct H as [[? [? ?]]|[? [? H]]]; subst ].
+
+(* in particular: whatever precedes a write of the return (other than the input itself) is the
+   input and its completed echo read *)
+Corollary return_after_echo : forall cfg input o t t1 r t2,
+  o_eager o = false -> input <> [] -> ptrace cfg (send_input cfg input o) t ->
+  t = t1 ++ OWrite (c_ret cfg) r :: t2 -> t1 <> [] ->
+  exists rb, t1 = [OWrite input false; ORead (echo_cond o input) rb].
+Proof.
+  intros cfg input o t t1 r t2 He Hi H E Hne.
+  destruct (send_input_return_after_echo cfg input o t He Hi H) as [[rb1 [rb2 [rest P]]]|[[e ->]|[rb1 [e ->]]]].
+  - rewrite E in P. rewrite <- app_assoc in P. simpl in P.
+    csplit P; [congruence|]. csplit P; [discriminate|]. csplit P; [eauto|]. csplit P; [discriminate|]. csplit P.
+  - csplit E; [congruence|]. csplit E; [discriminate|]. csplit E.
+  - csplit E; [congruence|]. csplit E; [discriminate|]. csplit E; [eauto|]. csplit E; [discriminate|]. csplit E.
+Qed.
+
+(* ---------- SendInteractive: the shape of every trace ---------- *)
+Definition ia_has_echo (o : op_opts) (e : ievent) : bool :=
+  match ev_response e, ev_hidden e with
+  | Some _, false => match ev_input e, o_exact o with [], false => false | _, _ => true end
+  | _, _ => false
+  end.
+
+Definition ia_prompts (cfg : chan_cfg) (o : op_opts) (e : ievent) : list re :=
+  o_complete o ++ [match ev_response e with Some r => r | None => c_prompt cfg end].
+
+(* after the event's input (and echo): the return, then a read-until of the event's prompts; what
+   follows ([next]) only after that read returned, and nothing if a completion pattern matched *)
+Definition ia_ret_stage (cfg : chan_cfg) (o : op_opts) (e : ievent) (next : list obs -> Prop) (t2 : list obs) : Prop :=
+  t2 = [] \/ exists t3, t2 = OWrite (c_ret cfg) false :: t3 /\
+    (t3 = [] \/ (exists er, t3 = [OErr (CAnyPrompt (ia_prompts cfg o e)) er])
+     \/ exists pb t4, t3 = ORead (CAnyPrompt (ia_prompts cfg o e)) pb :: t4
+                      /\ cond_holds cfg (CAnyPrompt (ia_prompts cfg o e)) pb = true
+                      /\ (if existsb (fun p => rx_match p pb) (o_complete o) then t4 = [] else next t4)).
+
+Definition ia_event_shape (cfg : chan_cfg) (o : op_opts) (e : ievent) (next : list obs -> Prop) (t : list obs) : Prop :=
+  t = [] \/ exists t1, t = OWrite (ev_input e) (ev_hidden e) :: t1 /\
+    if ia_has_echo o e
+    then t1 = [] \/ (exists er, t1 = [OErr (echo_cond o (ev_input e)) er])
+         \/ exists rb t2, t1 = ORead (echo_cond o (ev_input e)) rb :: t2 /\ ia_ret_stage cfg o e next t2
+    else ia_ret_stage cfg o e next t1.
+
+Fixpoint ia_shape (cfg : chan_cfg) (o : op_opts) (evs : list ievent) (t : list obs) : Prop :=
+  match evs with
+  | [] => t = []
+  | e :: rest => ia_event_shape cfg o e (ia_shape cfg o rest) t
+  end.
+
+Theorem interactive_paced_loop : forall cfg o evs acc t,
+  ptrace cfg (interactive_loop cfg o evs acc) t -> ia_shape cfg o evs t.
+Proof.
+  intros cfg o. induction evs as [|e rest IH]; intros acc t H; cbn [interactive_loop] in H.
+  - pinv H. reflexivity.
+  - cbn [ia_shape]. unfold ia_event_shape.
+    pinv H; [left; auto|]. right. eexists; split; [reflexivity|].
+    fold (ia_prompts cfg o e) in H.
+    assert (K : forall acc' t2,
+       ptrace cfg (Write (c_ret cfg) false
+          (Until (CAnyPrompt (ia_prompts cfg o e))
+             (fun pb => match rest with
+                        | [] => Ret (process_out cfg (acc' ++ pb) false)
+                        | _ :: _ => if existsb (fun p => rx_match p pb) (o_complete o)
+                                    then Ret (process_out cfg (acc' ++ pb) false)
+                                    else interactive_loop cfg o rest (acc' ++ pb)
+                        end) Fail)) t2 -> ia_ret_stage cfg o e (ia_shape cfg o rest) t2).
+    { intros acc' t2 H2. unfold ia_ret_stage. pinv H2; [left; auto|]. right. eexists; split; [reflexivity|].
+      pinv H2; [left; auto| |].
+      - right; right. do 2 eexists. split; [reflexivity|]. split; [assumption|].
+        destruct rest as [|e' rest'].
+        + pinv H2. destruct (existsb _ _); reflexivity.
+        + destruct (existsb (fun p => rx_match p rb) (o_complete o)); [pinv H2; reflexivity|].
+          eapply IH; eauto.
+      - pinv H2. right; left. eauto. }
+    unfold ia_has_echo. destruct (ev_response e) as [resp|]; [|eapply K; eauto].
+    destruct (ev_hidden e); [eapply K; eauto|].
+    unfold until_echo in H. destruct (ev_input e) as [|x inp] eqn:Ei.
+    + destruct (o_exact o) eqn:Ex.
+      * pinv H; [left; auto| |].
+        -- right; right. do 2 eexists. split; [reflexivity|]. eapply K; eauto.
+        -- pinv H. right; left. eauto.
+      * eapply K; eauto.
+    + assert (Em : (match o_exact o with false | _ => true end) = true) by (destruct (o_exact o); auto).
+      assert (H' : ptrace cfg (Until (echo_cond o (x :: inp))
+                    (fun nb => Write (c_ret cfg) false
+                       (Until (CAnyPrompt (ia_prompts cfg o e))
+                          (fun pb => match rest with
+                                     | [] => Ret (process_out cfg ((acc ++ nb) ++ pb) false)
+                                     | _ :: _ => if existsb (fun p => rx_match p pb) (o_complete o)
+                                                 then Ret (process_out cfg ((acc ++ nb) ++ pb) false)
+                                                 else interactive_loop cfg o rest ((acc ++ nb) ++ pb)
+                                     end) Fail)) Fail) t0).
+      { destruct (o_exact o); exact H. }
+      clear H Em. pinv H'; [left; auto| |].
+      * right; right. do 2 eexists. split; [reflexivity|]. eapply K; eauto.
+      * pinv H'. right; left. eauto.
+Qed.
+
+(* between the write of event i's return and the write of event i+1's input there is a completed
+   read-until of event i's prompts; hidden inputs are written redacted, visible ones not *)
+Theorem interactive_paced : forall cfg evs o t,
+  ptrace cfg (send_interactive cfg evs o) t -> ia_shape cfg o evs t.
+Proof. intros. eapply interactive_paced_loop; eauto. Qed.
+
+(* ---------- the secret only at its prompt ---------- *)
+(* [ChanTrace.guard_ok] with the "armed" test as a parameter *)
+Section GuardP.
+  Variable secret : bytes.
+  Variable asp : bytes -> bool.
+
+  Inductive guard_okP : bool -> list obs -> Prop :=
+  | gp_nil a : guard_okP a []
+  | gp_write_secret r t : r = true -> guard_okP false t -> guard_okP true (OWrite secret r :: t)
+  | gp_write_other a b r t : b <> secret -> guard_okP false t -> guard_okP a (OWrite b r :: t)
+  | gp_read a c rb t : guard_okP (asp rb) t -> guard_okP a (ORead c rb :: t)
+  | gp_err a c e t : guard_okP false t -> guard_okP a (OErr c e :: t)
+  | gp_note a tg d t : guard_okP a t -> guard_okP a (ONote tg d :: t)
+  | gp_requeue a b t : guard_okP false t -> guard_okP a (ORequeue b :: t).
+
+  Definition is_note (o : obs) : Prop := match o with ONote _ _ => True | _ => False end.
+
+  (* what the guard means: a write of the secret is redacted, and the last observation before it
+     that is not a log note is a read-until whose buffer armed the guard *)
+  Lemma guard_okP_spec : forall a t, guard_okP a t ->
+    forall t1 r t2, t = t1 ++ OWrite secret r :: t2 ->
+      r = true /\ ((Forall is_note t1 /\ a = true)
+                   \/ exists t0 c rb ns, t1 = t0 ++ ORead c rb :: ns /\ Forall is_note ns /\ asp rb = true).
+  Proof.
+    induction 1; intros t1 r0 t2 E.
+    - exfalso; eapply nil_split; eauto.
+    - csplit E.
+      + match goal with Hx : OWrite _ _ = OWrite _ _ |- _ => inversion Hx; subst end. split; auto.
+      + destruct (IHguard_okP _ _ _ eq_refl) as [Hr [[_ X]|[t0 [c [rb [ns [E1 [E2 E3]]]]]]]]; [discriminate|].
+        split; auto. right. rewrite E1. eexists (_ :: t0), c, rb, ns. split; [reflexivity|auto].
+    - csplit E.
+      + match goal with Hx : OWrite _ _ = OWrite _ _ |- _ => inversion Hx; subst end. congruence.
+      + destruct (IHguard_okP _ _ _ eq_refl) as [Hr [[_ X]|[t0 [c [rb [ns [E1 [E2 E3]]]]]]]]; [discriminate|].
+        split; auto. right. rewrite E1. eexists (_ :: t0), c, rb, ns. split; [reflexivity|auto].
+    - csplit E; [discriminate|].
+      destruct (IHguard_okP _ _ _ eq_refl) as [Hr [[X1 X2]|[t0 [c0 [rb0 [ns [E1 [E2 E3]]]]]]]].
+      + split; auto. right. exists [], c, rb, x. auto.
+      + split; auto. right. rewrite E1. eexists (_ :: t0), c0, rb0, ns. split; [reflexivity|auto].
+    - csplit E; [discriminate|].
+      destruct (IHguard_okP _ _ _ eq_refl) as [Hr [[_ X]|[t0 [c0 [rb [ns [E1 [E2 E3]]]]]]]]; [discriminate|].
+      split; auto. right. rewrite E1. eexists (_ :: t0), c0, rb, ns. split; [reflexivity|auto].
+    - csplit E; [discriminate|].
+      destruct (IHguard_okP _ _ _ eq_refl) as [Hr [[X1 X2]|[t0 [c0 [rb [ns [E1 [E2 E3]]]]]]]].
+      + split; auto. left. split; auto. constructor; simpl; auto.
+      + split; auto. right. rewrite E1. eexists (_ :: t0), c0, rb, ns. split; [reflexivity|auto].
+    - csplit E; [discriminate|].
+      destruct (IHguard_okP _ _ _ eq_refl) as [Hr [[_ X]|[t0 [c0 [rb [ns [E1 [E2 E3]]]]]]]]; [discriminate|].
+      split; auto. right. rewrite E1. eexists (_ :: t0), c0, rb, ns. split; [reflexivity|auto].
+  Qed.
+End GuardP.
+
+Lemma guard_okP_mono secret (asp asp' : bytes -> bool) :
+  (forall rb, asp rb = true -> asp' rb = true) ->
+  forall a t, guard_okP secret asp a t -> forall a', (a = true -> a' = true) -> guard_okP secret asp' a' t.
+Proof.
+  intros Hm a t H. induction H; intros a' Ha.
+  - constructor.
+  - rewrite (Ha eq_refl). apply gp_write_secret; auto.
+  - apply gp_write_other; auto.
+  - apply gp_read. apply IHguard_okP. apply Hm.
+  - apply gp_err. apply IHguard_okP. auto.
+  - apply gp_note. apply IHguard_okP. auto.
+  - apply gp_requeue. apply IHguard_okP. auto.
+Qed.
+
+Lemma guard_okP_guard_ok cfg secret esc complete a t :
+  guard_okP secret (at_secret_prompt cfg esc complete) a t <-> guard_ok cfg secret esc complete a t.
+Proof.
+  split; induction 1; try (constructor; auto; fail).
+Qed.
+
+Lemma cond_holds_anyprompt cfg pats rb :
+  cond_holds cfg (CAnyPrompt pats) rb = existsb (fun p => rx_match p (process_read_buf rb (c_depth cfg))) pats.
+Proof. reflexivity. Qed.
+
+(* the armed test that [interactive_loop] really implements for a hidden second event: some
+   pattern among the completion patterns and the first event's response matched the search WINDOW,
+   and no completion pattern matched the WHOLE buffer *)
+Definition armed_window (cfg : chan_cfg) (esc_prompt : re) (complete : list re) (rb : bytes) : bool :=
+  cond_holds cfg (CAnyPrompt (complete ++ [esc_prompt])) rb
+  && negb (existsb (fun p => rx_match p rb) complete).
+
+Lemma interactive_two_guarded : forall cfg o inp resp1 secret resp2 acc t,
+  secret <> inp -> secret <> c_ret cfg ->
+  ptrace cfg (interactive_loop cfg o [mkEv inp (Some resp1) false; mkEv secret (Some resp2) true] acc) t ->
+  guard_okP secret (armed_window cfg resp1 (o_complete o)) false t.
+Proof.
+  intros cfg o inp resp1 secret resp2 acc t Hs Hr H.
+  apply interactive_paced_loop in H. cbn [ia_shape] in H.
+  assert (K2 : forall t4, ia_event_shape cfg o (mkEv secret (Some resp2) true) (fun t => t = []) t4 ->
+                          guard_okP secret (armed_window cfg resp1 (o_complete o)) true t4).
+  { intros t4 [->|[t1 [-> S1]]]; [constructor|]. simpl ev_input. simpl ev_hidden.
+    apply gp_write_secret; auto. unfold ia_has_echo in S1. simpl in S1.
+    destruct S1 as [->|[t3 [-> S3]]]; [constructor|]. apply gp_write_other; auto.
+    destruct S3 as [->|[[er ->]|[pb [t5 [-> [Hc S5]]]]]]; [constructor|apply gp_err; constructor|].
+    apply gp_read. destruct (existsb _ _); subst; constructor. }
+  assert (K1 : forall t2, ia_ret_stage cfg o (mkEv inp (Some resp1) false)
+                            (ia_event_shape cfg o (mkEv secret (Some resp2) true) (fun t => t = [])) t2 ->
+                          forall a, guard_okP secret (armed_window cfg resp1 (o_complete o)) a t2).
+  { intros t2 [->|[t3 [-> S3]]] a; [constructor|]. apply gp_write_other; auto.
+    destruct S3 as [->|[[er ->]|[pb [t5 [-> [Hc S5]]]]]]; [constructor|apply gp_err; constructor|].
+    apply gp_read. unfold armed_window. unfold ia_prompts in Hc. simpl ev_response in Hc. rewrite Hc.
+    destruct (existsb (fun p => rx_match p pb) (o_complete o)); simpl.
+    - subst. constructor.
+    - apply K2. exact S5. }
+  destruct H as [->|[t1 [-> S1]]]; [constructor|]. simpl ev_input. simpl ev_hidden.
+  apply gp_write_other; auto.
+  destruct (ia_has_echo o (mkEv inp (Some resp1) false)).
+  - destruct S1 as [->|[[er ->]|[rb [t2 [-> S2]]]]]; [constructor|apply gp_err; constructor|].
+    apply gp_read. apply K1. exact S2.
+  - apply K1. exact S1.
+Qed.
+
+Definition escalate_complete (net : netcfg) (p : level) : list re :=
+  (match lookup_level (n_levels net) (lv_previous p) with Some pl => [lv_pattern pl] | None => [] end)
+  ++ [lv_pattern p].
+
+(* TRUE VARIANT of [escalate_guarded]: the guard with the test the code implements *)
+Theorem escalate_guarded_partial : forall net target p t,
+  lookup_level (n_levels net) target = Some p -> lv_escalate_auth p = true ->
+  n_secondary net <> [] -> n_secondary net <> lv_escalate p -> n_secondary net <> c_ret (n_chan net) ->
+  ptrace (n_chan net) (escalate net target) t ->
+  guard_okP (n_secondary net) (armed_window (n_chan net) (lv_escalate_prompt p) (escalate_complete net p)) false t.
+Proof.
+  intros net target p t Hl Ha Hn He Hr H. unfold escalate in H. rewrite Hl, Ha in H.
+  destruct (n_secondary net) as [|x s] eqn:Es; [congruence|]. simpl in H.
+  unfold send_interactive in H. rewrite <- Es in *.
+  eapply interactive_two_guarded in H; eauto.
+Qed.
+
+(* [escalate_guarded] as stated holds when a completion pattern that matches the search window of
+   a buffer also matches the whole buffer *)
+Theorem escalate_guarded : forall net target p t,
+  lookup_level (n_levels net) target = Some p -> lv_escalate_auth p = true ->
+  n_secondary net <> [] -> n_secondary net <> lv_escalate p -> n_secondary net <> c_ret (n_chan net) ->
+  (forall r rb, In r (escalate_complete net p) ->
+                rx_match r (process_read_buf rb (c_depth (n_chan net))) = true -> rx_match r rb = true) ->
+  ptrace (n_chan net) (escalate net target) t ->
+  guard_ok (n_chan net) (n_secondary net) (lv_escalate_prompt p) (escalate_complete net p) false t.
+Proof.
+  intros net target p t Hl Ha Hn He Hr Hwin H.
+  apply guard_okP_guard_ok.
+  eapply guard_okP_mono; [| eapply escalate_guarded_partial; eauto | auto].
+  intros rb Harm. unfold armed_window in Harm. unfold at_secret_prompt.
+  apply andb_true_iff in Harm. destruct Harm as [H1 H2]. rewrite H2, andb_true_r.
+  rewrite cond_holds_anyprompt, existsb_app in H1. apply orb_true_iff in H1. destruct H1 as [H1|H1].
+  - exfalso. apply existsb_exists in H1. destruct H1 as [r [Hin Hm]].
+    apply negb_true_iff in H2.
+    assert (X : existsb (fun p0 => rx_match p0 rb) (escalate_complete net p) = true).
+    { apply existsb_exists. exists r. split; auto. }
+    congruence.
+  - simpl in H1. rewrite orb_false_r in H1. exact H1.
+Qed.
+
+(* consequence: if the device grants or refuses without asking, the secret is never written *)
+Corollary escalate_secret_only_at_prompt : forall net target p t t1 r t2,
+  lookup_level (n_levels net) target = Some p -> lv_escalate_auth p = true ->
+  n_secondary net <> [] -> n_secondary net <> lv_escalate p -> n_secondary net <> c_ret (n_chan net) ->
+  (forall r rb, In r (escalate_complete net p) ->
+                rx_match r (process_read_buf rb (c_depth (n_chan net))) = true -> rx_match r rb = true) ->
+  ptrace (n_chan net) (escalate net target) t ->
+  t = t1 ++ OWrite (n_secondary net) r :: t2 ->
+  r = true /\ exists t0 c rb ns, t1 = t0 ++ ORead c rb :: ns /\ Forall is_note ns
+     /\ rx_match (lv_escalate_prompt p) (process_read_buf rb (c_depth (n_chan net))) = true
+     /\ existsb (fun q => rx_match q rb) (escalate_complete net p) = false.
+Proof.
+  intros net target p t t1 r t2 Hl Ha Hn He Hr Hwin H E.
+  pose proof (escalate_guarded net target p t Hl Ha Hn He Hr Hwin H) as G.
+  apply guard_okP_guard_ok in G.
+  destruct (guard_okP_spec _ _ _ _ G _ _ _ E) as [Hred [[_ X]|[t0 [c [rb [ns [E1 [E2 E3]]]]]]]]; [discriminate|].
+  split; auto. exists t0, c, rb, ns. unfold at_secret_prompt in E3.
+  apply andb_true_iff in E3. destruct E3 as [E3 E4]. apply negb_true_iff in E4. auto.
+Qed.
+
+(* ---------- COUNTEREXAMPLE to [escalate_guarded] without the window hypothesis ---------- *)
+(* completion pattern \A#\z (a non-multiline ^#$), search depth 1: the device answers "ab#" to
+   "enable"; the window "#" matches the completion pattern, the whole buffer does not, the
+   escalation prompt was never seen — and the secret is written *)
+Definition cx_pat : re := RCat RBot (RCat (RCls [(35, 35)]) REot).
+Definition cx_esc : re := re_lit [80;97;115;115;119;111;114;100;58].          (* Password: *)
+Definition cx_enable : bytes := [101;110;97;98;108;101].
+Definition cx_secret : bytes := [115;51;99;114;101;116].
+Definition cx_priv : bytes := [112;114;105;118].
+Definition cx_level : level := mkLevel cx_priv [] cx_pat [] [] [100] cx_enable true [] cx_esc.
+Definition cx_chan : chan_cfg := mkCfg 1 cx_pat [10] 0%Z.
+Definition cx_net : netcfg := mkNet [(cx_priv, cx_level)] cx_priv cx_secret cx_chan (fun _ l => l) (fun l => l).
+Definition cx_buf : bytes := [97;98;35].                                        (* ab# *)
+Definition cx_trace : list obs :=
+  [OWrite cx_enable false; ORead (echo_cond default_opts cx_enable) cx_enable; OWrite [10] false;
+   ORead (CAnyPrompt [cx_pat; cx_esc]) cx_buf; OWrite cx_secret true].
+
+Lemma cx_is_trace : ptrace (n_chan cx_net) (escalate cx_net cx_priv) cx_trace.
+Proof.
+  assert (E : escalate cx_net cx_priv =
+              interactive_loop cx_chan
+                (mkOpts default_strip_prompt default_eager default_exact [] [cx_pat])
+                [mkEv cx_enable (Some cx_esc) false; mkEv cx_secret (Some cx_pat) true] []) by reflexivity.
+  rewrite E. clear E. change (n_chan cx_net) with cx_chan. unfold cx_trace.
+  cbn [interactive_loop ev_input ev_hidden ev_response]. apply pt_write.
+  assert (Eu : forall k : bytes -> prog bytes,
+            until_echo (mkOpts default_strip_prompt default_eager default_exact [] [cx_pat]) cx_enable k
+            = Until (echo_cond default_opts cx_enable) k Fail).
+  { intros k. unfold until_echo, echo_cond, cx_enable. cbn [o_exact default_opts]. destruct default_exact; reflexivity. }
+  rewrite Eu. apply pt_read; [vm_compute; reflexivity|].
+  apply pt_write. cbn [o_complete app]. apply pt_read; [vm_compute; reflexivity|].
+  replace (existsb (fun p => rx_match p cx_buf) [cx_pat]) with false by (vm_compute; reflexivity).
+  cbn [interactive_loop ev_input ev_hidden ev_response]. apply pt_write. apply pt_nil.
+Qed.
+
+Theorem escalate_guarded_refuted :
+  ~ (forall net target p t,
+       lookup_level (n_levels net) target = Some p -> lv_escalate_auth p = true ->
+       n_secondary net <> [] -> n_secondary net <> lv_escalate p -> n_secondary net <> c_ret (n_chan net) ->
+       ptrace (n_chan net) (escalate net target) t ->
+       guard_ok (n_chan net) (n_secondary net) (lv_escalate_prompt p) (escalate_complete net p) false t).
+Proof.
+  intros Hall.
+  assert (G : guard_ok cx_chan cx_secret cx_esc [cx_pat] false cx_trace).
+  { apply (Hall cx_net cx_priv cx_level cx_trace); try reflexivity; try discriminate. apply cx_is_trace. }
+  unfold cx_trace in G.
+  inversion G as [| | ? ? ? ? _ G1 | | | |]; subst; clear G.
+  inversion G1 as [| | | ? ? ? ? G2 | | |]; subst; clear G1.
+  inversion G2 as [| ? ? _ G3 | ? ? ? ? _ G3 | | | |]; subst; clear G2;
+    inversion G3 as [| | | ? ? ? ? G4 | | |]; subst; clear G3;
+    replace (at_secret_prompt cx_chan cx_esc [cx_pat] cx_buf) with false in G4 by (vm_compute; reflexivity);
+    inversion G4 as [| | ? ? ? ? Hne _ | | | |]; subst; apply Hne; reflexivity.
+Qed.
